@@ -155,13 +155,26 @@ func runC02(c any, x *kit.Ctx) {
 		}
 		return
 	}
-	// sanity: the unmutated archive reads cleanly (0 deviations)
+	// sanity: the unmutated archive reads cleanly (0 deviations); the blocks are judged AFTER the
+	// whole scan, so a reader that hands out views into a buffer it later reuses is caught
 	for _, rk := range readers {
 		r := drv.Read(rk, x.Dir, file, drv.Opts{})
 		x.Eval(1)
 		if r.OpenErr != nil || r.Err != nil || len(r.Blocks) != len(pl.Sections) {
 			x.Fail("c02:valid-rejected:"+rk, "reader %s fails on the unmutated archive: %v %v", rk, r.OpenErr, r.Err)
+			continue
 		}
+		for i, b := range r.Blocks {
+			if ok, err := refcar.VerifyBlock(b.Cid, b.Data); err != nil || !ok {
+				x.Fail("c02:block-corrupt-after-scan:"+rk, "reader %s: block #%d of a VALID archive no longer hashes to its CID once the scan has finished (retained data overwritten?)", rk, i)
+				break
+			}
+		}
+	}
+	if len(cs.Seq) > 100 {
+		x.State(fmt.Sprintf("%s|large", cs.Cont))
+		x.Nontrivial(fmt.Sprintf("large|%s", cs.Cont))
+		return // the large archive is only read unmutated
 	}
 	nm := 0
 	// every single-bit flip of every data byte and every digest byte
@@ -223,6 +236,10 @@ func genC02(tier string, emit func(any)) {
 		for _, cont := range []string{"v1", "v2", "v2pad"} {
 			emit(C02Case{Seq: sq, Cont: cont})
 		}
+	}
+	// an archive larger than any reader-internal buffer, read unmutated with the blocks retained
+	for _, cont := range []string{"v1", "v2"} {
+		emit(C02Case{Seq: kit.ManyNames(300), Cont: cont})
 	}
 }
 
